@@ -1,1 +1,264 @@
-//! C04 harnesses.
+//! C04 — flow control and limits at publication level (regime R1: one 5632-byte log object, fs raised).
+use super::c01::{rd_i32, reserved_for, supplier};
+use super::publog::*;
+use super::util::*;
+use crate::concurrent::atomic_buffer::AtomicBuffer;
+use crate::concurrent::logbuffer::buffer_claim::BufferClaim;
+use crate::utils::errors::{AeronError, IllegalArgumentError};
+
+const MAXPOS: i64 = (TL as i64) << 31;
+
+/// R1: no symbolic index into the log object - the "unchanged" probes are a fixed set of concrete positions
+/// (frame header words and payload positions at and around the tail, first and last byte of the term).
+fn term_untouched(l: &PubLog, part: usize, tail: usize) -> bool {
+    let probes = [0usize, 4, 31, 32, 63, 64, 96, 128, TL - 32, TL - 1];
+    let mut ok = true;
+    let mut k = 0;
+    while k < probes.len() {
+        ok &= l.term_byte(part, probes[k]) == 0;
+        let q = tail + probes[k];
+        if q < TL {
+            ok &= l.term_byte(part, q) == 0;
+        }
+        k += 1;
+    }
+    ok
+}
+
+/// every payload byte of the accepted message is where the frame layout puts it (concrete indices, loop over len)
+fn payload_in_log(l: &PubLog, part: usize, tail: usize, len: usize, src: &[u8; 96]) -> bool {
+    let mut ok = true;
+    let mut j = 0;
+    while j < len {
+        let at = if j < 32 || len <= 32 { tail + 32 + j } else { tail + 64 + 32 + (j - 32) };
+        ok &= l.term_byte(part, at) == src[j];
+        j += 1;
+    }
+    ok
+}
+
+#[derive(Copy, Clone, PartialEq)]
+enum Kind {
+    SharedOffer,
+    SharedClaim,
+    ExclOffer,
+    ExclClaim,
+}
+
+fn run_op(kind: Kind, l: &mut PubLog, closed: bool, src: &mut [u8; 96], len: i32) -> Result<i64, AeronError> {
+    let sb = AtomicBuffer::new(src.as_mut_ptr(), 96);
+    match kind {
+        Kind::SharedOffer => {
+            let p = l.publication();
+            if closed {
+                p.close();
+            }
+            let r = p.offer_opt(sb, 0, len, supplier).map(|v| v as i64);
+            std::mem::forget(p);
+            r
+        }
+        Kind::SharedClaim => {
+            let mut p = l.publication();
+            if closed {
+                p.close();
+            }
+            let mut claim = BufferClaim::default();
+            let r = p.try_claim(len, &mut claim).map(|v| v as i64);
+            if r.is_ok() {
+                claim.buffer().copy_from(32, &sb, 0, len);
+                claim.commit();
+            }
+            std::mem::forget(p);
+            r
+        }
+        Kind::ExclOffer => {
+            let mut p = l.exclusive_publication();
+            if closed {
+                p.close();
+            }
+            let r = p.offer_opt(sb, 0, len, supplier);
+            std::mem::forget(p);
+            r
+        }
+        Kind::ExclClaim => {
+            let mut p = l.exclusive_publication();
+            if closed {
+                p.close();
+            }
+            let mut claim = BufferClaim::default();
+            let r = p.try_claim(len, &mut claim);
+            if r.is_ok() {
+                claim.buffer().copy_from(32, &sb, 0, len);
+                claim.commit();
+            }
+            std::mem::forget(p);
+            r
+        }
+    }
+}
+
+/// One offer / claim+commit from the log state (count elapsed terms, tail offset) with message length `len`;
+/// limit, connected flag, closed flag, session/stream ids and payload bytes symbolic.
+macro_rules! pub_step {
+    ($name:ident, $kind:expr, $count:expr, $tail:expr, $len:expr) => {
+        #[kani::proof]
+        fn $name() {
+            let kind: Kind = $kind;
+            let is_claim = kind == Kind::SharedClaim || kind == Kind::ExclClaim;
+            let is_excl = kind == Kind::ExclOffer || kind == Kind::ExclClaim;
+            let max_len: i32 = if is_claim { 32 } else { 64 };
+            let count: i32 = $count;
+            let tail: i32 = $tail;
+            let tu = tail as usize;
+            let mut l = PubLog::new(count, tail);
+            let limit: i64 = kani::any();
+            let connected: i32 = kani::any();
+            kani::assume(connected == 0 || connected == 1);
+            l.set_limit(limit);
+            l.set_connected(connected);
+            let closed: bool = kani::any();
+            let mut src: [u8; 96] = kani::any();
+            let len: i32 = $len;
+            let part = l.partition();
+            let tail_before = l.raw_tail_of(part);
+            let r = run_op(kind, &mut l, closed, &mut src, len);
+            let pos = l.position();
+            let untouched = l.raw_tail_of(part) == tail_before && term_untouched(&l, part, tu) && l.active_count() == count;
+            let aligned: i64 = if len <= 32 { align32(32 + len as i64) } else { 64 + align32((len - 32) as i64 + 32) };
+            match r {
+                Ok(np) => {
+                    assert!(!closed, "C04: a closed publication accepted an offer/claim");
+                    assert!(pos < limit, "C04: accepted although the position is at or beyond the publication limit");
+                    assert!(len <= max_len, "C04: message longer than the maximum message length (claim: MTU payload) accepted");
+                    assert!(np == pos + aligned, "C04: returned position equals the stream position just after the message");
+                    assert!(np <= MAXPOS && np % 32 == 0 && np > pos, "C04: returned position aligned, increasing and within the position space");
+                    assert!(l.raw_tail_of(part) == tail_before + aligned, "C04: raw tail advanced by the aligned message length");
+                    assert!(payload_in_log(&l, part, tu, len as usize, &src), "C04: accepted message bytes are in the log");
+                    assert!(rd_i32(&l.mem.0, part * TL + tu) == 32 + if len <= 32 { len } else { 32 }, "C04: first frame committed with its length");
+                }
+                Err(e) => {
+                    if is_claim && len > max_len {
+                        assert!(matches!(e, AeronError::IllegalArgument(IllegalArgumentError::EncodedMessageExceedsMaxPayloadLength { .. })), "C04: claim longer than the MTU payload must be rejected as such");
+                        assert!(untouched, "C04: an over-long claim is rejected without touching the log");
+                    } else if closed {
+                        assert!(matches!(e, AeronError::PublicationClosed), "C04: closed publication must report PublicationClosed");
+                        assert!(untouched, "C04: an operation on a closed publication changes nothing");
+                    } else if pos >= limit {
+                        if pos + len as i64 >= MAXPOS {
+                            assert!(matches!(e, AeronError::MaxPositionExceeded), "C04: at the end of the position space the refusal is MaxPositionExceeded");
+                        } else if connected == 1 {
+                            assert!(matches!(e, AeronError::BackPressured), "C04: beyond the limit with a connected subscriber the refusal is BackPressured");
+                        } else {
+                            assert!(matches!(e, AeronError::NotConnected), "C04: beyond the limit without a subscriber the refusal is NotConnected");
+                        }
+                        assert!(untouched, "C04: a refused offer leaves the log, the tail and the term count unchanged");
+                    } else if len > max_len {
+                        assert!(matches!(e, AeronError::IllegalArgument(IllegalArgumentError::EncodedMessageExceedsMaxMessageLength { .. })), "C04: over-long message must be rejected as such");
+                        assert!(untouched, "C04: an over-long message is rejected without touching the log");
+                    } else {
+                        // below the limit the only legitimate refusals are the end of the term (AdminAction after
+                        // padding + rotation) and the end of the position space
+                        assert!(tail as i64 + aligned > TL as i64, "C04: below the limit and fitting the term, yet refused");
+                        let last_term = if is_excl { (count as i64) * (TL as i64) + TL as i64 >= MAXPOS } else { pos + tail as i64 > MAXPOS };
+                        if last_term {
+                            assert!(matches!(e, AeronError::MaxPositionExceeded), "C04: tripping the last term reports MaxPositionExceeded");
+                            assert!(l.active_count() == count, "C04: the stream never advances past the maximum position");
+                        } else {
+                            assert!(matches!(e, AeronError::AdminAction), "C04: tripping the term end reports AdminAction");
+                            assert!(l.active_count() as i64 == count as i64 + 1, "C04: tripping the term end rotates the log exactly once");
+                            assert!(l.raw_tail_of((part + 1) % 3) == pack_tail(l.term_id().wrapping_add(1), 0), "C04: next term's tail initialised to (term id + 1, 0)");
+                        }
+                        if tu < TL {
+                            assert!(rd_i32(&l.mem.0, part * TL + tu) == TL as i32 - tail && l.mem.0[part * TL + tu + 6] == 0 && l.mem.0[part * TL + tu + 7] == 0, "C04: exactly one padding frame fills the term remainder");
+                        }
+                    }
+                    std::mem::forget(e);
+                }
+            }
+            kani::cover!(!closed && pos < limit, "[must] below-limit path");
+            kani::cover!(!closed && pos >= limit, "[must] refused-by-limit path");
+            kani::cover!(closed, "[must] closed path");
+        }
+    };
+}
+// initial term id = i32::MAX - 1 (publog.rs): count 2 is the first wrapped term id.
+// @verif tier=quick unwind=4 unwindset=term_untouched:12,payload_in_log:66 fs=6000
+pub_step!(c04_shared_offer_unfragmented, Kind::SharedOffer, 0, 0, 17);
+// @verif tier=quick unwind=4 unwindset=term_untouched:12,payload_in_log:66 fs=6000
+pub_step!(c04_shared_offer_fragmented_wrapped_term_id, Kind::SharedOffer, 2, 64, 40);
+// @verif tier=quick unwind=4 unwindset=term_untouched:12,payload_in_log:66 fs=6000
+pub_step!(c04_shared_offer_over_max_message_length, Kind::SharedOffer, 1, 32, 65);
+// @verif tier=quick unwind=4 unwindset=term_untouched:12,payload_in_log:66 fs=6000
+pub_step!(c04_shared_offer_trips_term_end, Kind::SharedOffer, 1, TL as i32 - 32, 17);
+// @verif tier=quick unwind=4 unwindset=term_untouched:12,payload_in_log:66 fs=6000
+pub_step!(c04_shared_offer_trips_last_term, Kind::SharedOffer, i32::MAX, TL as i32 - 32, 17);
+// @verif tier=quick unwind=4 unwindset=term_untouched:12,payload_in_log:66 fs=6000
+pub_step!(c04_shared_claim_commit, Kind::SharedClaim, 4, 96, 20);
+// @verif tier=quick unwind=4 unwindset=term_untouched:12,payload_in_log:66 fs=6000
+pub_step!(c04_shared_claim_over_mtu_payload, Kind::SharedClaim, 0, 0, 33);
+// @verif tier=quick unwind=4 unwindset=term_untouched:12,payload_in_log:66 fs=6000
+pub_step!(c04_exclusive_offer_unfragmented, Kind::ExclOffer, 0, 32, 32);
+// @verif tier=quick unwind=4 unwindset=term_untouched:12,payload_in_log:66 fs=6000
+pub_step!(c04_exclusive_offer_fragmented_after_handover, Kind::ExclOffer, 3, 64, 64);
+// @verif tier=quick unwind=4 unwindset=term_untouched:12,payload_in_log:66 fs=6000
+pub_step!(c04_exclusive_offer_trips_term_end, Kind::ExclOffer, 0, TL as i32 - 64, 40);
+// @verif tier=quick unwind=4 unwindset=term_untouched:12,payload_in_log:66 fs=6000
+pub_step!(c04_exclusive_claim_commit, Kind::ExclClaim, 0, 128, 1);
+// The exclusive appender reaches its tail counter through an integer-derived raw pointer; for partitions 1 and 2 CBMC
+// cannot resolve it inside the 5.6 KB log object (15 min+, measured), so exclusive instances use term counts that are
+// multiples of 3 and the constructor-only harness below covers the other partitions.
+// @verif tier=off unwind=4 unwindset=term_untouched:12,payload_in_log:66 fs=6000
+pub_step!(c04_exclusive_offer_trips_last_term, Kind::ExclOffer, i32::MAX, TL as i32 - 32, 17);
+// @verif tier=thorough unwind=4 unwindset=term_untouched:12,payload_in_log:66 fs=6000
+pub_step!(c04_shared_offer_empty_message, Kind::SharedOffer, 5, 160, 0);
+// @verif tier=thorough unwind=4 unwindset=term_untouched:12,payload_in_log:66 fs=6000
+pub_step!(c04_shared_offer_fills_term_exactly, Kind::SharedOffer, 0, TL as i32 - 64, 32);
+// @verif tier=thorough unwind=4 unwindset=term_untouched:12,payload_in_log:66 fs=6000
+pub_step!(c04_shared_offer_tail_already_beyond_term, Kind::SharedOffer, 1, TL as i32 + 32, 17);
+// @verif tier=thorough unwind=4 unwindset=term_untouched:12,payload_in_log:66 fs=6000
+pub_step!(c04_exclusive_claim_over_mtu_payload, Kind::ExclClaim, 6, 0, 40);
+// @verif tier=thorough unwind=4 unwindset=term_untouched:12,payload_in_log:66 fs=6000
+pub_step!(c04_shared_claim_trips_term_end, Kind::SharedClaim, 2, TL as i32 - 32, 32);
+
+/// ExclusivePublication::new on a log handed over with `count` elapsed terms and a non-zero tail: position, term id
+/// and term offset come from the active partition (constructor only - see the note above).
+macro_rules! excl_new {
+    ($name:ident, $count:expr, $tail:expr) => {
+        #[kani::proof]
+        fn $name() {
+            let mut l = PubLog::new($count, $tail);
+            l.set_limit(kani::any());
+            let p = l.exclusive_publication();
+            assert!(vok!(p.position(), "C04: open publication reports a position") == l.position(), "C04: position right after construction equals elapsed terms x term length + tail offset");
+            assert!(p.term_id() == l.term_id() && p.term_offset() == $tail, "C04: exclusive publication starts at the active term id and tail offset");
+            p.close();
+            assert!(p.position().is_err() && p.publication_limit().is_err() && p.available_window().is_err(), "C04: a closed publication rejects position / limit / window queries");
+            std::mem::forget(p);
+        }
+    };
+}
+// @verif tier=quick unwind=4 fs=6000
+excl_new!(c04_exclusive_new_count1, 1, 64);
+// @verif tier=quick unwind=4 fs=6000
+excl_new!(c04_exclusive_new_count2_wrapped, 2, 96);
+// @verif tier=thorough unwind=4 fs=6000
+excl_new!(c04_exclusive_new_count0, 0, 0);
+
+/// Shared publication: position / limit / window accessors, open and closed.
+// @verif tier=quick unwind=4 fs=6000
+#[kani::proof]
+fn c04_shared_accessors_open_and_closed() {
+    let mut l = PubLog::new(4, 160);
+    let limit: i64 = kani::any();
+    kani::assume(limit > -(1i64 << 62) && limit < (1i64 << 62));
+    l.set_limit(limit);
+    let p = l.publication();
+    assert!(vok!(p.position(), "C04: open publication reports a position") == l.position(), "C04: position equals elapsed terms x term length + tail offset");
+    assert!(vok!(p.publication_limit(), "C04: open publication reports its limit") == limit, "C04: limit as stored in the counter");
+    assert!(vok!(p.available_window(), "C04: open publication reports a window") == limit - l.position(), "C04: window == limit - position");
+    p.close();
+    assert!(matches!(p.position(), Err(AeronError::PublicationClosed)), "C04: closed publication rejects position()");
+    assert!(matches!(p.publication_limit(), Err(AeronError::PublicationClosed)), "C04: closed publication rejects publication_limit()");
+    assert!(matches!(p.available_window(), Err(AeronError::PublicationClosed)), "C04: closed publication rejects available_window()");
+    std::mem::forget(p);
+}
